@@ -137,7 +137,7 @@ def run_parse(text, dialect):
         ln = getattr(exc, 'lineno', None)
         if not isinstance(ln, int) or isinstance(ln, bool):
             return ('bad', 'lineno-not-int:%r' % (ln,))
-        return ('err', type(exc).__name__, ln)
+        return ('err', type(exc).__name__, ln, 'eof' if 'end of input' in str(getattr(exc, 'msg', exc)).lower() else 'token')
     except Exception as exc:
         return ('bad', 'foreign-exception:%s' % type(exc).__name__)
     if not isinstance(tree, list):
@@ -153,6 +153,9 @@ def basic(res, text, sig):
         nlines = lineof(text, len(text))
         if not 1 <= res[2] <= nlines:
             return [('%s|lineno-outside-text' % sig, 'text %r (%d lines) -> %r' % (text, nlines, res))]
+        if res[3:] == ('eof',) and res[2] != nlines:
+            # no token offends: the text ends too early, and it ends on its last line
+            return [('%s|end-of-input-not-on-the-last-line' % sig, 'text %r (%d lines) -> %r' % (text, nlines, res))]
     return []
 
 
@@ -213,6 +216,62 @@ class Prefixes(object):
                     vs.append(('C11|prefix|complete-prefix-wrong|%s' % res[0],
                                'prefix %r holds %d complete module(s) but parse() gave %r' % (prefix, complete, res)))
         return (res[0], repr(res[1:])), vs, 1
+
+
+class LaterObjects(object):
+    case_timeout = None
+    name = 'later-objects-of-the-shipped-classes'
+    describe = ('the parser classes the package ships (SmiV2Parser, SmiV1Parser, SmiV1CompatParser): the SECOND and THIRD object of a '
+                'class built in the process - the first one idle, or stopped in the middle of another text - are given every proper '
+                'prefix of six seed texts: same outcome, same error class and same line as the parser of that dialect made afresh, '
+                'and the general oracle (line inside the text; end of input reported on the last line)')
+
+    CLASSES = [('SmiV2Parser', 'smiV2'), ('SmiV1Parser', 'smiV1'), ('SmiV1CompatParser', 'smiV1Relaxed')]
+    SEEDS = ['ot-parts-0', 'imports-2', 'two-modules', 'table', 'mi-2-2', 'choice-1']
+    _objs = {}
+
+    def blocks(self, tier):
+        return [{'cls': c, 'e': s, 'which': w} for c in range(len(self.CLASSES)) for s in self.SEEDS for w in (1, 2)]
+
+    def cases(self, block, tier):
+        e = entry(block['e'])
+        text, _ = layout(mibspec.file_tokens(e['mods']), 'A')
+        for cut in range(1, len(text)):
+            yield dict(block, cut=cut)
+
+    def objects(self, cname):
+        if cname not in self._objs:
+            import pysmi.parser as pkg
+            cls = getattr(pkg, cname)
+            first = cls()
+            try:
+                first.parse('STOPPED-MIB DEFINITIONS ::= BEGIN\n\n\n\n\nx OBJECT IDENTIFIER ::= { y')
+            except error.PySmiError:
+                pass
+            self._objs[cname] = (first, cls(), cls())
+        return self._objs[cname]
+
+    def run_case(self, case):
+        cname, dialect = self.CLASSES[case['cls']]
+        e = entry(case['e'])
+        text, offs = layout(mibspec.file_tokens(e['mods']), 'A')
+        prefix = text[:case['cut']]
+        want = run_parse(prefix, dialect)
+        obj = self.objects(cname)[case['which']]
+        real_parse = env.parse
+        env.parse = lambda t, d: obj.parse(t)
+        try:
+            got = run_parse(prefix, dialect)
+        finally:
+            env.parse = real_parse
+        sig = 'C11|later-object|%s' % cname
+        vs = basic(got, prefix, sig)
+        if not vs and got[:3] != want[:3] and not (got[0] == want[0] == 'ok'):
+            vs.append(('%s|differs-from-a-parser-made-afresh|%s-%s' % (sig, want[0], got[0]),
+                       'prefix %r: object %d of the class -> %r, fresh %s parser -> %r' % (prefix, case['which'] + 1, got[1:], dialect, want[1:])))
+        elif not vs and got[0] == 'ok' and got[1] != want[1]:
+            vs.append(('%s|tree-differs-from-a-parser-made-afresh' % sig, 'prefix %r' % prefix))
+        return (got[0], repr(got[1:])[:200]), vs, 2
 
 
 def mutations(tokens, alpha):
@@ -456,4 +515,14 @@ class LongLiterals(object):
 
     _hung = {}
 
-FAMILIES = [Prefixes(), TokenMutations(), Noise(), Lexical(), LongLiterals()]
+def _shared_cache_directory():
+    from mc.checks import C17
+
+    class SharedCacheDirectory(C17.SharedCacheDirectory):
+        """A text is accepted, or rejected with the located error of ITS dialect, whatever other dialect used the parser cache directory before."""
+        prefix = 'C11'
+        name = 'dialects-over-one-cache-directory'
+    return SharedCacheDirectory()
+
+
+FAMILIES = [Prefixes(), TokenMutations(), Noise(), Lexical(), LongLiterals(), LaterObjects(), _shared_cache_directory()]
